@@ -55,6 +55,22 @@ def _ctor_formulas(repo, k, alg):
         if isinstance(s, ast.Expr) and isinstance(s.value, ast.Call) and norm(s.value.func).startswith("warnings."):
             continue
         if isinstance(s, ast.Assign) and len(s.targets) == 1 and isinstance(s.targets[0], ast.Name):
+            # the index array produced by a module-level helper (`k = _symmetric_indices(npoints)`): a helper whose every
+            # return is np.arange(...) with unit step (possibly shifted by an integer offset)
+            if isinstance(s.value, ast.Call) and isinstance(s.value.func, ast.Name):
+                g = next((x for x in repo.funcs.values() if x.module == init.module and x.cls is None
+                          and x.name == s.value.func.id and isinstance(x.node, ast.FunctionDef)), None)
+                if g is not None:
+                    rets = [r_.value for r_ in ast.walk(g.node) if isinstance(r_, ast.Return) and r_.value is not None]
+
+                    def unit_arange(v):
+                        if isinstance(v, ast.BinOp) and isinstance(v.op, (ast.Add, ast.Sub)):
+                            return unit_arange(v.left) or unit_arange(v.right)
+                        return isinstance(v, ast.Call) and norm(v.func) in ("np.arange", "numpy.arange") and not v.keywords and \
+                            (len(v.args) < 3 or norm(v.args[2]) == "1")
+                    if rets and all(unit_arange(v) for v in rets):
+                        env[s.targets[0].id] = alg.x
+                        continue
             ar = [n for n in ast.walk(s.value) if isinstance(n, ast.Call) and norm(n.func) in ("np.arange", "numpy.arange")]
             if ar:
                 # the index array: consecutive integers (step 1), possibly shifted by an integer offset
